@@ -341,6 +341,11 @@ pub fn campaigns(ctx: &Ctx) -> Stats {
         let strat = move || (recipe_strategy(len), any::<[u8; 8]>(), any::<u64>()).prop_map(|(prog, p, vseed)| R17 { prog, p, vseed }).boxed();
         st.merge(ctx.run_prop(name, total / 2, strat, move |r| build(&cfg, r)));
     }
+    for (name, p) in [("programs-with-large-dimensions", Profile::LargeDims), ("programs-with-wide-magnitudes", Profile::WideMagnitudes)] {
+        let cfg = base_cfg(false, t).with_profile(p, t == Tier::Thorough, crate::exec::IS_F32);
+        let strat = move || (recipe_strategy(len), any::<[u8; 8]>(), any::<u64>()).prop_map(|(prog, p, vseed)| R17 { prog, p, vseed }).boxed();
+        st.merge(ctx.run_prop(name, crate::histcase::profile_total(t, p), strat, move |r| build(&cfg, r)));
+    }
     st
 }
 
